@@ -125,11 +125,11 @@ Make(Z, cs) ==
                              \/ ((j.at \oplus W(j.oa)) \preceq s /\ s \prec (j.at \oplus W(j.ob)))}
   IN
   IF Cardinality(P) = 1 /\ resp = {} THEN
-    LET t == s \ominus W(CHOOSE o \in P : TRUE) IN [kind |-> "UNIQUE", pre |-> Clamp(t), trans |-> Clamp(t), post |-> Clamp(t)]
+    LET t == s \ominus W(CHOOSE o \in P : TRUE) IN [kind |-> "UNIQUE", pre |-> Clamp(t), trans |-> Clamp(t), post |-> Clamp(t), rawpre |-> t]
   ELSE IF Cardinality(resp) = 1 /\ Cardinality(P) \in {0, 2} THEN
     LET j == CHOOSE j \in resp : TRUE IN
     [kind |-> IF Cardinality(P) = 0 THEN "SKIPPED" ELSE "REPEATED",
-     pre |-> Clamp(s \ominus W(j.ob)), trans |-> Clamp(j.at), post |-> Clamp(s \ominus W(j.oa))]
+     pre |-> Clamp(s \ominus W(j.ob)), trans |-> Clamp(j.at), post |-> Clamp(s \ominus W(j.oa)), rawpre |-> s \ominus W(j.ob)]
   ELSE [kind |-> "ILLFORMED"]          \* crowded / crossing changes: outside the property's premise
 Convert(Z, cs) == LET m == Make(Z, cs) IN IF m.kind = "SKIPPED" THEN m.trans ELSE m.pre
 
